@@ -302,7 +302,9 @@ Definition verdict (c : opcase) : Z :=
     | _ => 4
     end
   else match spec c with
-       | SEither _ => if holds (spec c) (oc_obs c) then 0
+       | SEither _ => if holds (spec c) (oc_obs c)
+                      then (* refusing what the model of the current code computes is a violation (OpCheck.verdict_of) *)
+                           (match model c, oc_obs c with MOk _, OErr _ => 2 | _, _ => 0 end)
                       else (match known_class c with Some k => if agree (model c) (oc_obs c) then 100 + k else 2 | None => 2 end)
        | s => verdict_of s (model c) (known_class c) (oc_obs c)
        end.
